@@ -3,11 +3,13 @@
   per output line: `{"op": "<name>", …}` ↦ `{…}` | `{"error": "<msg>"}`.
 -/
 import SnowModel.Ops.OpCond
+import SnowModel.Ops.Simpson
 
 open Lean Snow
 
 def allOps : List (String × Op) :=
   Snow.Ops.opCondOps
+  ++ Snow.Ops.simpsonOps
 
 def handle (line : String) : String :=
   match Json.parse line with
